@@ -7,6 +7,7 @@ import traceback
 
 ENGINES = {
   'C10': 'timer',
+  'C01': 'stack', 'C02': 'stack', 'C12': 'stack',
 }
 
 
